@@ -774,9 +774,8 @@ class EventSource(object):
                 continue
 
             if not line or self.closed:  # empty line or closed so attempt dispatch
-                if parts:
+                if parts:  # data field(s) so dispatch event, its data may be empty
                     edata = u'\n'.join(parts)
-                if edata:  # data so dispatch event by appending to .events
                     if self.dictable:
                         try:
                             ejson = json.loads(edata, object_pairs_hook=dict)
